@@ -144,6 +144,24 @@ func sendRaw(addr string, rq *request, watchdog time.Duration) (int, []byte, err
 		if _, err := conn.Write(rq.body[cut:]); err != nil {
 			return 0, nil, err
 		}
+	case "chunked": // a correct chunked upload (no Content-Length), body split into a few chunks
+		head = fmt.Sprintf("POST /prove HTTP/1.1\r\nHost: %s\r\nContent-Type: application/json\r\nTransfer-Encoding: chunked\r\nConnection: close\r\n\r\n", addr)
+		var sb bytes.Buffer
+		sb.WriteString(head)
+		for off := 0; off < len(rq.body); {
+			n := 1 + (off*7+13)%700
+			if off+n > len(rq.body) {
+				n = len(rq.body) - off
+			}
+			fmt.Fprintf(&sb, "%x\r\n", n)
+			sb.Write(rq.body[off : off+n])
+			sb.WriteString("\r\n")
+			off += n
+		}
+		sb.WriteString("0\r\n\r\n")
+		if _, err := conn.Write(sb.Bytes()); err != nil {
+			return 0, nil, err
+		}
 	case "bad-chunk":
 		head = fmt.Sprintf("POST /prove HTTP/1.1\r\nHost: %s\r\nContent-Type: application/json\r\nTransfer-Encoding: chunked\r\nConnection: close\r\n\r\n", addr)
 		payload := fmt.Sprintf("%x\r\n%s\r\nZZZ\r\n", len(rq.body), rq.body)
@@ -151,7 +169,7 @@ func sendRaw(addr string, rq *request, watchdog time.Duration) (int, []byte, err
 			return 0, nil, err
 		}
 	}
-	if tc, ok := conn.(*net.TCPConn); ok && rq.raw != "slow-body" {
+	if tc, ok := conn.(*net.TCPConn); ok && rq.raw != "slow-body" && rq.raw != "chunked" {
 		tc.CloseWrite()
 	}
 	resp, err := http.ReadResponse(bufio.NewReader(conn), nil)
@@ -237,6 +255,7 @@ func truncate(s string, n int) string {
 // ---- request generators ---------------------------------------------------------
 
 var reqCounter int64
+var validCounter int64
 
 func newReq(class, method string, body []byte, expect string, hash *big.Int) *request {
 	return &request{class: class, method: method, body: body, expect: expect, hash: hash, id: int(atomic.AddInt64(&reqCounter, 1))}
@@ -245,11 +264,12 @@ func newReq(class, method string, body []byte, expect string, hash *big.Int) *re
 // validRequest builds a valid batch for ks in a PRNG-chosen number style.
 func validRequest(r *rand.Rand, ks *keyset) *request {
 	style := []string{"hex", "hex", "padhex", "dec", "HEX"}[r.Intn(5)]
+	k := int(atomic.AddInt64(&validCounter, 1))
 	if ks.mode == "insertion" {
-		p := sysutil.InsParams(sysutil.ValidIns(r, ks.d, ks.b))
+		p := sysutil.InsParams(sysutil.ValidInsK(r, ks.d, ks.b, k))
 		return newReq("valid", "POST", ref.MustJSON(ref.InsDoc(p, style)), expectValid, p.InputHash)
 	}
-	p := sysutil.DelParams(sysutil.ValidDel(r, ks.d, ks.b))
+	p := sysutil.DelParams(sysutil.ValidDelK(r, ks.d, ks.b, k))
 	return newReq("valid", "POST", ref.MustJSON(ref.DelDoc(p, style)), expectValid, p.InputHash)
 }
 
